@@ -32,6 +32,8 @@ ASSUMPTIONS = [
     "thread interleavings are enumerated at the granularity of public calls (each call atomic under a baton); interleaving inside a "
     "fit (~1e7 bytecodes) is out of exhaustive reach - one free-running execution per program set is added and reported separately",
     "'identical' = equal sha256 of to_json() and bit-identical predictions on a fixed reporting set",
+    "the harness pins PYTHONHASHSEED=0 for its own reproducibility; part E therefore re-runs a fit of every family under other "
+    "string-hash seeds (fresh processes differ in it by default) against the same references",
 ]
 
 CHECKED_PREFIX = ("fit:", "use:", "refit:")
@@ -76,8 +78,12 @@ def run(tier, seed):
     workers = poolmod.n_workers()
     alpha = alphabet(tier)
     checked = [a for a in alpha if a.startswith(CHECKED_PREFIX)]
+    # fits whose reproducibility is also checked under other string-hash seeds (every family; fresh processes differ in it by default)
+    HASH_HISTORIES = [["fit:daily:A", "fit:billing:A", "fit:daily_legacy:A"], ["fit:hourly:A", "fit:hourly_solar:A"], ["fit:caltrack:A"]]
+    # developer profiles that select a randomised optimiser: twice in one process, and in fresh processes
+    RAND_HISTORIES = [["fit:daily_crs2:A", "fit:daily_crs2:A", "fit:daily_stogo:A"]] + ([["fit:daily_esch:A", "fit:daily_stogo:A", "fit:daily_esch:A"]] if tier == "thorough" else [])
     ref_ops = sorted(set(("fit:" + a.split(":", 1)[1] if a.startswith(("use:", "refit:")) else a).replace("fit:hourly_late:", "fit:hourly:")
-                         for a in checked))
+                         for a in checked) | {op for h in HASH_HISTORIES + RAND_HISTORIES for op in h})
     stats = {"processes": 0, "fits_compared": 0}
 
     def ref_of(op):
@@ -86,7 +92,7 @@ def run(tier, seed):
 
     # ---- references: each fit alone in a fresh process, twice
     with ThreadPoolExecutor(max_workers=workers) as tp:
-        twice = {"fit:daily:A", "fit:hourly:A", "fit:billing:A"} if tier == "quick" else set(ref_ops)
+        twice = {"fit:daily:A", "fit:hourly:A", "fit:billing:A", "fit:daily_crs2:A", "fit:daily_stogo:A"} if tier == "quick" else set(ref_ops)
         futs = {(op, k): tp.submit(run_history, [op]) for op in ref_ops for k in range(2 if op in twice else 1)}
         refs = {}
         for (op, k), f in futs.items():
@@ -222,6 +228,16 @@ def run(tier, seed):
             n_env += 1
             for op, r in zip(h, res["ops"]):
                 judge(op, r, "thread_count_environment", f"env {v} history {h}")
+        # string-hash seeds: the references run under PYTHONHASHSEED=0; a fresh process normally draws a random one
+        hseeds = ["1", "4242"] + (["random", "7", "123456789"] if tier == "thorough" else [])
+        futs = [(hs, h, tp.submit(run_history, h, None, {"PYTHONHASHSEED": hs})) for hs in hseeds for h in HASH_HISTORIES]
+        futs += [("0", h, tp.submit(run_history, h, None, {"PYTHONHASHSEED": "0"})) for h in RAND_HISTORIES]
+        for hs, h, f in futs:
+            res = f.result()
+            stats["processes"] += 1
+            n_env += 1
+            for op, r in zip(h, res["ops"]):
+                judge(op, r, "randomised_optimiser_profile" if h in RAND_HISTORIES else "string_hash_seed", f"PYTHONHASHSEED={hs} history {h}")
     cov = {
         "states": max(len(seen), 1), "transitions": max(edges, 1), "traces_validated_against_impl": edges,
         "evaluations": stats["processes"], "distinct_nontrivial": len(seen) + n_sched,
